@@ -7,3 +7,12 @@ Definition c17_tidy := tidy_model.
 Definition c17_check := check_model.
 Definition c17_mkU := mkU.
 Definition c17_mkM := mkM.
+
+(* module file codec (Tidy/ModFile.v): everything the tie compares for one data tree *)
+From Verif Require Import Tidy.ModFile.
+Definition c17_mc (cur : Semver.Model.str) (t : tree) :=
+  let view (r : res (file * views)) :=
+      match r with POk (f, w) => POk (render f, w) | PErr e => PErr e end in
+  let p := parse_strict cur t in
+  (view p, view (parse_nonstrict cur t), parse_legacy t,
+   match p with POk (f, _) => Some (format cur f, dropped_fields t f) | PErr _ => None end).
